@@ -9,7 +9,12 @@
       input claims (`read_ledger_bound`, from C10);
     * positional conversions read only existing elements: a tuple shorter than its type, or an array of the wrong length, is a
       conversion error (`short_tuple_is_error`, `wrong_length_array_is_error`, from C17);
-    * the CSV field scanner consumes its input and stops (total function; `scan_is_total`).
+    * the CSV field scanner consumes its input and stops (total function; `scan_is_total`);
+    * the CBOR decoder MODEL (JV.Model.CborParser = the parse() / read_item() loop of cbor_parser.hpp, tied to the real decoder by
+      differential testing, C07) TERMINATES on every input: the model recurses on a fuel argument, and the termination argument
+      of the real loop is that the fuel `decode` supplies, 2·|input|+2, is never exhausted (`cbor_fuel_suffices`) — because every
+      item that is read consumes at least one byte (`cbor_item_consumes`). So on every byte string the decoder stops with a value and a strictly shorter rest, with one of
+      its `cbor_errc` codes, or with the model's documented `skip` (a tag: outside the modelled fragment) (`cbor_decode_outcomes`).
   Everything else is observed, not proved: the check drives every public entry point with mutated spec-derived inputs under
   ASan + UBSan and classifies every exception (see checks/c05.py).
 -/
@@ -17,6 +22,7 @@ import JV.Proofs.JsonPathSlice
 import JV.Props.C10
 import JV.Props.C17
 import JV.Model.Csv
+import JV.Proofs.CborParserFuel
 namespace JV
 namespace Props
 namespace C05
@@ -37,6 +43,56 @@ theorem scan_is_total (o : Model.Csv.Opts) (input : Bytes) :
   | ok r => exact Or.inl ⟨r, rfl⟩
   | eof => exact Or.inr (Or.inl rfl)
   | bad => exact Or.inr (Or.inr rfl)
+
+/-! ### the CBOR decoder model terminates -/
+
+/-- every item the decoder reads consumes at least one byte — at every fuel, nesting level and limit -/
+theorem cbor_item_consumes (maxDepth fuel depth : Nat) (bs : Bytes) (v : Model.CborParser.Item) (rest : Bytes)
+    (h : Model.CborParser.item maxDepth fuel depth bs = .ok v rest) : rest.length < bs.length :=
+  Model.CborParser.item_consumes h
+
+/-- … and so do the four container loops (the definite ones may be asked for zero elements: they never give bytes back) -/
+theorem cbor_containers_consume (maxDepth fuel depth : Nat) :
+    (∀ n s v r, Model.CborParser.items maxDepth fuel depth n s = .ok v r → r.length ≤ s.length) ∧
+    (∀ s v r, Model.CborParser.itemsIndef maxDepth fuel depth s = .ok v r → r.length < s.length) ∧
+    (∀ n s v r, Model.CborParser.members maxDepth fuel depth n s = .ok v r → r.length ≤ s.length) ∧
+    (∀ s v r, Model.CborParser.membersIndef maxDepth fuel depth s = .ok v r → r.length < s.length) :=
+  have h := Model.CborParser.consumes_all maxDepth fuel
+  ⟨h.2.1 depth, h.2.2.1 depth, h.2.2.2.1 depth, h.2.2.2.2 depth⟩
+
+/-- fuel adequacy: with the fuel `decode` supplies (2·|bs|+2) the model never answers "out of fuel" — the loop terminates -/
+theorem cbor_fuel_suffices (maxDepth : Nat) (bs : Bytes) : Model.CborParser.decode maxDepth bs ≠ .fail .fuel :=
+  Model.CborParser.decode_ne_fuel maxDepth bs
+
+/-- … at any position: 2·|bs|+1 is enough for one item, 2·|bs|+2 for each container loop -/
+theorem cbor_fuel_suffices_inner (maxDepth fuel depth : Nat) (bs : Bytes) :
+    (2 * bs.length + 1 ≤ fuel → Model.CborParser.item maxDepth fuel depth bs ≠ .fail .fuel) ∧
+    (2 * bs.length + 2 ≤ fuel →
+      (∀ n, Model.CborParser.items maxDepth fuel depth n bs ≠ .fail .fuel) ∧ Model.CborParser.itemsIndef maxDepth fuel depth bs ≠ .fail .fuel ∧
+      (∀ n, Model.CborParser.members maxDepth fuel depth n bs ≠ .fail .fuel) ∧ Model.CborParser.membersIndef maxDepth fuel depth bs ≠ .fail .fuel) :=
+  have h := Model.CborParser.nofuel_all maxDepth fuel
+  ⟨h.1 depth bs, fun hf => ⟨fun n => h.2.1 depth n bs hf, h.2.2.1 depth bs hf, fun n => h.2.2.2.1 depth n bs hf, h.2.2.2.2 depth bs hf⟩⟩
+
+/-- on every byte string the decoder stops with a value and a strictly shorter rest, with one of its error codes, or (a tag at an
+    item start: outside the modelled fragment) with `skip` -/
+theorem cbor_decode_outcomes (maxDepth : Nat) (bs : Bytes) :
+    (∃ v rest, Model.CborParser.decode maxDepth bs = .ok v rest ∧ rest.length < bs.length) ∨
+    (∃ e, Model.CborParser.decode maxDepth bs = .fail (.err e)) ∨
+    Model.CborParser.decode maxDepth bs = .fail .skip := by
+  have hf := cbor_fuel_suffices maxDepth bs
+  cases h : Model.CborParser.decode maxDepth bs with
+  | ok v rest => exact Or.inl ⟨v, rest, rfl, Model.CborParser.item_consumes h⟩
+  | fail f =>
+    cases f with
+    | err e => exact Or.inr (Or.inl ⟨e, rfl⟩)
+    | skip => exact Or.inr (Or.inr rfl)
+    | fuel => exact absurd h hf
+
+/-! non-vacuity: the three outcomes occur; an empty input is an error, not "out of fuel" -/
+example : Model.CborParser.decode 8 [0x82, 1, 0x61, 0x41, 9] = .ok (.arr [.uint 1, .str [0x41]]) [9] := by rfl
+example : Model.CborParser.decode 8 [] = .fail (.err .unexpectedEof) := by rfl
+example : Model.CborParser.decode 8 [0xc0, 0] = .fail .skip := by rfl
+example : Model.CborParser.item 8 0 0 [0] = .fail .fuel := by rfl
 
 end C05
 end Props
